@@ -27,13 +27,32 @@ package rest
 //	   slices= every caller slice as it reads after the call (the caller's routes must not change).
 //	req … [auth=<secret>]                      a JWT signed with <secret> in the Authorization header
 
+// Round 5:
+//
+//	req … [ctx=<k=v,…>] [beh=<kind>]   ctx: the request arrives with pathvar variables of an outer router in its context;
+//	       beh: what the user handler that runs does: w<code> writes that status, perr / pstr / pabort panic with an
+//	       error / a string / http.ErrAbortHandler, goexit calls runtime.Goexit.  Outcomes then carry ` status=<c>`
+//	       (route handler ran, response status not 200), ` end=<kind>`, ` esc=<panic|goexit>` (it left ServeHTTP).
+//	opt cors                            rest.WithCors()  (OPTIONS requests => "204 cors"; 405 situation => "na=204404 code=404")
+//	opt router                          rest.WithRouter(router.NewRouter())
+//	opt chain=<n>                       rest.WithChain(chain.New(c1 … cn)) (trail tokens c<i>; replaces the native chain)
+//	use id=<k>               => ok      Server.Use(middleware u<k>)
+//	start                    => listen | panic:<verdict>     Server.Start() with a port that cannot be opened
+//	cfg must=1                          the server is built by rest.MustNewServer
+//	herr k=<kind>              => returned | panic:same-error | panic:other     handleError(err) with err = nil, ErrServerClosed,
+//	                                    a wrapped ErrServerClosed, registration errors (plain, wrapped), a typed-nil and a zero-valued error
+//	other m=<method> p=<path>  => clean=<…> <outcome>   a second rest.Server (own route GET /other/:o -> h=9999), alive
+//	                                    at the same time as the first, serves the request
+
 import (
 	"errors"
 	"fmt"
+	"net"
 	"net/http"
 	"net/http/httptest"
 	"net/url"
 	"path"
+	"runtime"
 	"sort"
 	"strings"
 	"testing"
@@ -42,6 +61,7 @@ import (
 	"github.com/golang-jwt/jwt/v4"
 	"github.com/zeromicro/go-zero/core/logx"
 	"github.com/zeromicro/go-zero/internal/verifh"
+	"github.com/zeromicro/go-zero/rest/chain"
 	"github.com/zeromicro/go-zero/rest/pathvar"
 	"github.com/zeromicro/go-zero/rest/router"
 )
@@ -79,6 +99,76 @@ func (g *c09SrvGen) toks(depth0, mode int) []string {
 	return out
 }
 
+// c09SrvExtras: the request-side dimensions of round 5 — variables of an outer router already in the context, and
+// every outcome kind of the user handler.
+func c09SrvExtras(r *verifh.Rng) string {
+	out := ""
+	if r.Chance(1, 6) {
+		out += " ctx=" + r.PickS("x=outer", "x=outer", "q=1,x=2", "id=7", "y=o,z=o", "")
+	}
+	if r.Chance(1, 6) {
+		out += " beh=" + r.PickS("w201", "w204", "w301", "w404", "w405", "w500", "w503", "perr", "pstr", "pabort", "goexit")
+	}
+	return out
+}
+
+// c09SrvUses inserts 0-2 Server.Use calls anywhere from position lo on (before, between and after the AddRoutes calls).
+func c09SrvUses(r *verifh.Rng, ops []string, lo int) []string {
+	if !r.Chance(1, 4) {
+		return ops
+	}
+	for i, n := 0, r.Pick(1, 1, 2); i < n; i++ {
+		at := lo + r.Intn(len(ops)-lo+1)
+		op := fmt.Sprintf("use id=%d", i+1)
+		ops = append(ops[:at], append([]string{op}, ops[at:]...)...)
+	}
+	return ops
+}
+
+// c09SrvOthers: in one section of five a second server is alive next to the first: some of the requests are also sent
+// to it (it knows none of the first server's routes), and its own route is asked from both.
+func c09SrvOthers(r *verifh.Rng, ops []string) []string {
+	if !r.Chance(1, 5) {
+		return ops
+	}
+	var out []string
+	seenReq := false
+	for _, op := range ops {
+		out = append(out, op)
+		f := strings.Fields(op)
+		if f[0] != "req" {
+			continue
+		}
+		if !seenReq {
+			seenReq = true
+			out = append(out, "other m=GET p=/other/zz")
+		}
+		if r.Chance(1, 3) {
+			out = append(out, "other "+f[1]+" "+f[2])
+		}
+		if r.Chance(1, 6) {
+			out = append(out, "req m="+r.PickS("GET", "POST")+" p=/other/"+r.PickS("zz", "a")+" n=1", "other m="+r.PickS("GET", "PUT")+" p=/other/"+r.PickS("a/", "a/b", ""))
+		}
+	}
+	return out
+}
+
+// c09SrvCfg: how the server is built and started.
+func c09SrvBind(r *verifh.Rng) string {
+	if r.Chance(1, 3) {
+		return "start"
+	}
+	return "bind"
+}
+
+// c09SrvHerr: every class of error value at handleError (one in eight sections).
+func c09SrvHerr(r *verifh.Rng, ops []string) []string {
+	if r.Chance(1, 8) {
+		ops = append(ops, "herr k="+r.PickS("nil", "closed", "wrapped-closed", "badmethod", "wrapped-badpath", "dup", "typed-nil", "zero"))
+	}
+	return ops
+}
+
 func c09Render(toks []string) string {
 	return "/" + strings.Join(toks, "/")
 }
@@ -92,7 +182,13 @@ func (g *c09SrvGen) section() verifh.Section {
 	var ops []string
 	// options (a later one overwrites an earlier one)
 	for i, n := 0, r.Pick(0, 0, 1, 1, 2, 3); i < n; i++ {
-		switch r.Intn(7) {
+		switch r.Intn(10) {
+		case 9:
+			ops = append(ops, "opt cors")
+		case 8:
+			ops = append(ops, "opt chain="+r.PickS("0", "1", "2"))
+		case 7:
+			ops = append(ops, "opt router")
 		case 0:
 			ops = append(ops, "opt nf=nil")
 		case 1, 2:
@@ -103,6 +199,7 @@ func (g *c09SrvGen) section() verifh.Section {
 			ops = append(ops, "opt na="+r.PickS("801", "802", "418", "405"))
 		}
 	}
+	nopts := len(ops)
 	type reg struct {
 		m    string
 		toks []string // joined tokens (as the router will see them), nil if not representable
@@ -230,9 +327,10 @@ func (g *c09SrvGen) section() verifh.Section {
 			ops = append(ops, "group "+strings.Join(rs, " "))
 		}
 	}
-	ops = append(ops, "bind")
+	ops = c09SrvUses(r, ops, nopts)
+	ops = c09SrvHerr(r, append(ops, c09SrvBind(r)))
 	if r.Chance(1, 40) {
-		ops = append(ops, "bind") // binding twice registers everything twice
+		ops = append(ops, c09SrvBind(r)) // binding twice registers everything twice
 	}
 	tok := func() string {
 		if r.Chance(1, 10) {
@@ -299,13 +397,13 @@ func (g *c09SrvGen) section() verifh.Section {
 		case x < 24:
 			p = r.PickS("", "a", "a/b", ".")
 		}
-		ops = append(ops, fmt.Sprintf("req m=%s p=%s n=%d", m, p, rep))
+		ops = append(ops, fmt.Sprintf("req m=%s p=%s n=%d", m, p, rep)+c09SrvExtras(r))
 	}
 	mw := 0
 	if r.Chance(1, 4) {
 		mw = 1 // native middlewares between the router and the route handler
 	}
-	return verifh.Section{Cfg: fmt.Sprintf("kind=server mode=%d mw=%d", mode, mw), Ops: ops}
+	return verifh.Section{Cfg: fmt.Sprintf("kind=server mode=%d mw=%d must=%d", mode, mw, r.Pick(0, 0, 1)), Ops: c09SrvOthers(r, ops)}
 }
 
 // sectionAPI: route tables built through the public API in all its forms: caller-owned slices that are added
@@ -316,13 +414,20 @@ func (g *c09SrvGen) sectionAPI() verifh.Section {
 	r := g.r
 	var ops []string
 	for i, n := 0, r.Pick(0, 0, 1, 2); i < n; i++ {
-		switch r.Intn(4) {
+		switch r.Intn(7) {
+		case 6:
+			ops = append(ops, "opt cors")
+		case 5:
+			ops = append(ops, "opt chain="+r.PickS("0", "1", "2"))
+		case 4:
+			ops = append(ops, "opt router")
 		case 0:
 			ops = append(ops, "opt nf="+r.PickS("701", "410", "nil"))
 		default:
 			ops = append(ops, "opt na="+r.PickS("801", "418", "nil"))
 		}
 	}
+	nopts := len(ops)
 	names := []string{"x", "y", "z", "w", "v", "u", "t"}
 	type rt struct {
 		m    string
@@ -371,6 +476,7 @@ func (g *c09SrvGen) sectionAPI() verifh.Section {
 		m      string
 		toks   []string
 		secret string
+		prev   string // WithJwtTransition: a token signed with the previous secret must be accepted too
 	}
 	var mounts []mount
 	var secrets []string
@@ -393,17 +499,29 @@ func (g *c09SrvGen) sectionAPI() verifh.Section {
 			}
 			pf = append(pf, one)
 		}
-		secret := ""
+		secret, prevSecret := "", ""
+		dead := false // the call panics: none of its mounts exists
 		addOpt := func() {
 			switch x := r.Intn(100); {
+			case x < 2:
+				// validateSecret: a secret shorter than 8 bytes (or empty) panics; the call registers nothing
+				opts = append(opts, r.PickS("o=jwt=short", "o=jwt=", "o=jwt=7bytes-", "o=jwtt=short,secret-aaaa"))
+				dead = true
 			case x < 14:
 				secret = r.PickS("secret-aaaa", "secret-bbbb")
-				if r.Chance(1, 4) {
-					prev := r.PickS("secret-cccc", "secret-bbbb")
+				if r.Chance(1, 3) {
+					// previous secret: another one, the one another group uses as CURRENT (swapped pair), or empty
+					prev := r.PickS("secret-cccc", "secret-bbbb", "secret-aaaa", "")
+					if prev == secret {
+						prev = "secret-cccc"
+					}
 					opts = append(opts, "o=jwtt="+secret+","+prev)
-					secrets = append(secrets, prev)
+					prevSecret = prev
+					if prev != "" {
+						secrets = append(secrets, prev)
+					}
 				} else {
-					opts = append(opts, "o=jwt="+secret)
+					opts = append(opts, "o=jwt="+secret) // (an earlier WithJwtTransition's previous secret stays)
 				}
 				secrets = append(secrets, secret)
 			case x < 22:
@@ -439,7 +557,8 @@ func (g *c09SrvGen) sectionAPI() verifh.Section {
 		if r.Chance(1, 5) {
 			one, txt := mkRoutes(1)
 			ops = append(ops, fmt.Sprintf("addone %s %s", txt, strings.Join(opts, " ")))
-			mounts = append(mounts, mount{one[0].m, append(append([]string{}, ptoks...), one[0].toks...), secret})
+			mounts = append(mounts, mount{one[0].m, append(append([]string{}, ptoks...), one[0].toks...), secret, prevSecret})
+			_ = dead // (a dead mount is still probed: the requests must find nothing there)
 			continue
 		}
 		// favour re-using a slice that was added before
@@ -449,10 +568,11 @@ func (g *c09SrvGen) sectionAPI() verifh.Section {
 		}
 		ops = append(ops, strings.TrimSpace(fmt.Sprintf("add s=%d %s", k, strings.Join(opts, " "))))
 		for _, x := range slices[k] {
-			mounts = append(mounts, mount{x.m, append(append([]string{}, ptoks...), x.toks...), secret})
+			mounts = append(mounts, mount{x.m, append(append([]string{}, ptoks...), x.toks...), secret, prevSecret})
 		}
 	}
-	ops = append(ops, "bind")
+	ops = c09SrvUses(r, ops, nopts)
+	ops = c09SrvHerr(r, append(ops, c09SrvBind(r)))
 	tok := func() string { return r.PickS("a", "b", "c", "d", "Ab", "api", "v1") }
 	nreq := r.Range(6, verifh.Scale(18, 30))
 	for i := 0; i < nreq; i++ {
@@ -492,6 +612,8 @@ func (g *c09SrvGen) sectionAPI() verifh.Section {
 		}
 		op := fmt.Sprintf("req m=%s p=%s n=2", m, p)
 		switch x := r.Intn(100); {
+		case x < 25 && q.prev != "":
+			op += " auth=" + q.prev // signed with the PREVIOUS secret of the route's own group
 		case x < 45 && q.secret != "":
 			op += " auth=" + q.secret
 		case x < 60 && len(secrets) > 0:
@@ -499,13 +621,13 @@ func (g *c09SrvGen) sectionAPI() verifh.Section {
 		case x < 68:
 			op += " auth=secret-zzzz"
 		}
-		ops = append(ops, op)
+		ops = append(ops, op+c09SrvExtras(r))
 	}
 	mw := 0
 	if r.Chance(1, 4) {
 		mw = 1
 	}
-	return verifh.Section{Cfg: fmt.Sprintf("kind=server mode=0 mw=%d api=1", mw), Ops: ops}
+	return verifh.Section{Cfg: fmt.Sprintf("kind=server mode=0 mw=%d api=1 must=%d", mw, r.Pick(0, 0, 1)), Ops: c09SrvOthers(r, ops)}
 }
 
 func c09SrvGenAll(r *verifh.Rng) []verifh.Section {
@@ -549,12 +671,38 @@ func TestVerifC09Server(t *testing.T) {
 	secs := verifh.Sections(c09SrvGenAll)
 	verifh.Run(t, secs, func(cfg verifh.Cfg) (func(op []string) string, func()) {
 		var hits []c09SrvHit
+		beh, ended := "", ""
+		// what the user handler does after it has been recorded
+		act := func(w http.ResponseWriter, route bool) {
+			switch {
+			case beh == "":
+				return
+			case beh[0] == 'w':
+				if route {
+					ended = beh
+					w.WriteHeader(verifh.Atoi(beh[1:]))
+				}
+			case beh == "perr":
+				ended = beh
+				panic(errors.New("c09: handler failed"))
+			case beh == "pstr":
+				ended = beh
+				panic("c09: handler panic")
+			case beh == "pabort":
+				ended = beh
+				panic(http.ErrAbortHandler)
+			case beh == "goexit":
+				ended = beh
+				runtime.Goexit()
+			}
+		}
 		custom := func(kind string, id int) http.Handler {
 			return http.HandlerFunc(func(w http.ResponseWriter, r *http.Request) {
 				hits = append(hits, c09SrvHit{kind, id, nil})
 				if id >= 400 && id <= 599 {
 					w.WriteHeader(id)
 				}
+				act(w, false)
 			})
 		}
 		var opts []RunOption
@@ -570,6 +718,7 @@ func TestVerifC09Server(t *testing.T) {
 			id := verifh.Atoi(f[2])
 			return Route{Method: f[0], Path: f[1], Handler: func(w http.ResponseWriter, r *http.Request) {
 				hits = append(hits, c09SrvHit{"h", id, pathvar.Vars(r)})
+				act(w, true)
 			}}, true
 		}
 		// route options of an add / addone op, in the order written; mw=<n> asks for rest.WithMiddlewares
@@ -638,12 +787,82 @@ func TestVerifC09Server(t *testing.T) {
 					conf.MaxConns = 10000
 					conf.MaxBytes = 1 << 20
 				}
-				srv, err = NewServer(conf, opts...)
+				conf.Port = -1 // Start(): the registration is bound first, then the listener fails at once
+				if cfg.Int("must", 0) == 1 {
+					srv = MustNewServer(conf, opts...)
+				} else {
+					srv, err = NewServer(conf, opts...)
+				}
 				if err != nil {
 					panic(err)
 				}
 			}
 		}
+		// one request on one handler: the canonical outcome
+		one := func(h http.Handler, req *http.Request) string {
+			rec := httptest.NewRecorder()
+			hits = hits[:0]
+			trail = trail[:0]
+			ended = ""
+			esc := c09SrvServe(h, rec, req)
+			var o string
+			switch {
+			case len(hits) > 1:
+				o = fmt.Sprintf("several-handlers=%d", len(hits))
+			case len(hits) == 1 && hits[0].kind == "h":
+				var kv []string
+				for k, v := range hits[0].vars {
+					kv = append(kv, k+"="+v)
+				}
+				sort.Strings(kv)
+				o = fmt.Sprintf("h=%d vars=%s", hits[0].id, strings.Join(kv, ","))
+				if len(trail) > 0 {
+					o += " mw=" + strings.Join(trail, ".")
+				}
+				if rec.Code != 200 {
+					o += fmt.Sprintf(" status=%d", rec.Code)
+				}
+			case len(hits) == 0 && len(trail) == 0 && rec.Header().Get("Access-Control-Allow-Origin") != "" &&
+				rec.Code == http.StatusNoContent && req.Method == http.MethodOptions:
+				o = "204 cors" // WithCors: the CORS middleware answered the OPTIONS request
+			case len(hits) == 0 && len(trail) == 0 && rec.Header().Get("Access-Control-Allow-Origin") != "" &&
+				rec.Code == http.StatusNotFound && rec.Body.Len() == 0:
+				o = "na=204404 code=404" // cors.NotAllowedHandler (the built-in not-found handlers write a body)
+			case len(hits) == 0 && rec.Code == http.StatusUnauthorized:
+				o = "401"
+				if len(trail) > 0 {
+					o += " mw=" + strings.Join(trail, ".") // the WithChain middlewares sit in front of Authorize
+				}
+			case len(trail) > 0:
+				o = "middleware-without-handler=" + strings.Join(trail, ".")
+			case len(hits) == 1:
+				o = fmt.Sprintf("%s=%d code=%d", hits[0].kind, hits[0].id, rec.Code)
+				if a := rec.Header().Get("Allow"); a != "" {
+					o += " allow=" + strings.ReplaceAll(a, " ", "")
+				}
+			case rec.Code == http.StatusMethodNotAllowed:
+				al := strings.Split(rec.Header().Get("Allow"), ", ")
+				sort.Strings(al)
+				o = "405 allow=" + strings.Join(al, ",")
+			case rec.Code == http.StatusNotFound:
+				o = "404"
+				if a := rec.Header().Get("Allow"); a != "" {
+					o += " allow=" + strings.ReplaceAll(a, " ", "")
+				}
+			case rec.Code == http.StatusUnauthorized:
+				o = "401"
+			default:
+				o = fmt.Sprintf("code=%d", rec.Code)
+			}
+			if ended != "" {
+				o += " end=" + ended
+			}
+			if esc != "" {
+				o += " esc=" + esc
+			}
+			return o
+		}
+		var other *Server
 		step := func(op []string) string {
 			switch op[0] {
 			case "opt":
@@ -666,7 +885,91 @@ func TestVerifC09Server(t *testing.T) {
 					}
 					return "ok"
 				}
+				if len(op) == 2 && op[1] == "cors" {
+					opts = append(opts, WithCors())
+					return "ok"
+				}
+				if len(op) == 2 && op[1] == "router" {
+					opts = append(opts, WithRouter(router.NewRouter()))
+					return "ok"
+				}
+				if v, ok := c09SrvArg(op, "chain="); ok {
+					var ms []chain.Middleware
+					for i := 1; i <= verifh.Atoi(v); i++ {
+						i := i
+						ms = append(ms, func(next http.Handler) http.Handler {
+							return http.HandlerFunc(func(w http.ResponseWriter, r *http.Request) {
+								trail = append(trail, fmt.Sprintf("c%d", i))
+								next.ServeHTTP(w, r)
+							})
+						})
+					}
+					opts = append(opts, WithChain(chain.New(ms...)))
+					return "ok"
+				}
 				return "bad-op"
+			case "use":
+				build()
+				ids, ok := c09SrvArg(op, "id=")
+				if !ok {
+					return "bad-op"
+				}
+				srv.Use(func(next http.HandlerFunc) http.HandlerFunc {
+					return func(w http.ResponseWriter, r *http.Request) {
+						trail = append(trail, "u"+ids)
+						next(w, r)
+					}
+				})
+				return "ok"
+			case "start":
+				build()
+				return c09SrvStart(srv)
+			case "herr":
+				// handleError, the last step of Server.Start, with every class of error value
+				k, _ := c09SrvArg(op, "k=")
+				var err error
+				switch k {
+				case "nil":
+				case "closed":
+					err = http.ErrServerClosed
+				case "wrapped-closed":
+					err = fmt.Errorf("serve: %w", http.ErrServerClosed)
+				case "badmethod":
+					err = router.ErrInvalidMethod
+				case "wrapped-badpath":
+					err = fmt.Errorf("bind: %w", router.ErrInvalidPath)
+				case "dup":
+					err = fmt.Errorf("duplicated item for %s", "/a")
+				case "typed-nil":
+					err = (*net.OpError)(nil) // a non-nil error value holding a nil pointer
+				case "zero":
+					err = &net.OpError{}
+				default:
+					return "bad-op"
+				}
+				return c09SrvHandleError(err)
+			case "other":
+				// a SECOND rest.Server alive at the same time (own engine, own router, one route of its own,
+				// bound at once): the request is served by it
+				build()
+				if other == nil {
+					var err error
+					if other, err = NewServer(RestConf{}); err != nil {
+						panic(err)
+					}
+					other.AddRoute(Route{Method: "GET", Path: "/other/:o", Handler: func(w http.ResponseWriter, r *http.Request) {
+						hits = append(hits, c09SrvHit{"h", 9999, pathvar.Vars(r)})
+					}})
+					if err := other.ngin.bindRoutes(other.router); err != nil {
+						return "err:" + c09SrvVerdict(err)
+					}
+				}
+				m, _ := c09SrvArg(op, "m=")
+				p, _ := c09SrvArg(op, "p=")
+				req := httptest.NewRequest(http.MethodGet, "/", nil)
+				req.Method = m
+				req.URL = &url.URL{Path: p}
+				return "clean=" + path.Clean(p) + " " + one(other.router, req)
 			case "group":
 				build()
 				var rs []Route
@@ -681,6 +984,7 @@ func TestVerifC09Server(t *testing.T) {
 					id := verifh.Atoi(f[2])
 					rs = append(rs, Route{Method: f[0], Path: f[1], Handler: func(w http.ResponseWriter, r *http.Request) {
 						hits = append(hits, c09SrvHit{"h", id, pathvar.Vars(r)})
+						act(w, true)
 					}})
 				}
 				before := len(srv.Routes())
@@ -726,7 +1030,9 @@ func TestVerifC09Server(t *testing.T) {
 				if nmw > 0 {
 					rs = WithMiddlewares(middlewares(nmw), rs...)
 				}
-				srv.AddRoutes(rs, ros...)
+				if c09SrvPanics(func() { srv.AddRoutes(rs, ros...) }) {
+					return "panic:secret " + listing()
+				}
 				return listing()
 			case "addone":
 				build()
@@ -745,26 +1051,13 @@ func TestVerifC09Server(t *testing.T) {
 				if nmw > 0 {
 					*one = WithMiddlewares(middlewares(nmw), *one)[0]
 				}
-				srv.AddRoute(*one, ros...)
+				if c09SrvPanics(func() { srv.AddRoute(*one, ros...) }) {
+					return "panic:secret " + listing()
+				}
 				return listing()
 			case "bind":
 				build()
-				err := srv.ngin.bindRoutes(srv.router)
-				switch {
-				case err == nil:
-					return "ok"
-				case errors.Is(err, router.ErrInvalidMethod):
-					return "badmethod"
-				case errors.Is(err, router.ErrInvalidPath):
-					return "badpath"
-				case strings.HasPrefix(err.Error(), "duplicated item for "):
-					return "dup"
-				case strings.HasPrefix(err.Error(), "duplicated slash for "):
-					return "dupslash"
-				case err.Error() == "empty item":
-					return "empty"
-				}
-				return "err:" + strings.ReplaceAll(err.Error(), " ", "_")
+				return c09SrvVerdict(srv.ngin.bindRoutes(srv.router))
 			case "req":
 				build()
 				m, _ := c09SrvArg(op, "m=")
@@ -779,6 +1072,16 @@ func TestVerifC09Server(t *testing.T) {
 					}
 					bearer = "Bearer " + tok
 				}
+				beh, _ = c09SrvArg(op, "beh=")
+				var outer map[string]string
+				if cv, ok := c09SrvArg(op, "ctx="); ok {
+					outer = map[string]string{}
+					for _, kv := range strings.Split(cv, ",") {
+						if i := strings.IndexByte(kv, '='); i >= 0 {
+							outer[kv[:i]] = kv[i+1:]
+						}
+					}
+				}
 				seen := map[string]bool{}
 				for i := 0; i < n; i++ {
 					req := httptest.NewRequest(http.MethodGet, "/", nil)
@@ -787,50 +1090,13 @@ func TestVerifC09Server(t *testing.T) {
 					if bearer != "" {
 						req.Header.Set("Authorization", bearer)
 					}
-					rec := httptest.NewRecorder()
-					hits = hits[:0]
-					trail = trail[:0]
-					srv.router.ServeHTTP(rec, req)
-					var o string
-					switch {
-					case len(hits) > 1:
-						o = fmt.Sprintf("several-handlers=%d", len(hits))
-					case len(hits) == 1 && hits[0].kind == "h":
-						var kv []string
-						for k, v := range hits[0].vars {
-							kv = append(kv, k+"="+v)
-						}
-						sort.Strings(kv)
-						o = fmt.Sprintf("h=%d vars=%s", hits[0].id, strings.Join(kv, ","))
-						if len(trail) > 0 {
-							o += " mw=" + strings.Join(trail, ".")
-						}
-						if rec.Code != 200 {
-							o += fmt.Sprintf(" code=%d", rec.Code)
-						}
-					case len(trail) > 0:
-						o = "middleware-without-handler=" + strings.Join(trail, ".")
-					case len(hits) == 1:
-						o = fmt.Sprintf("%s=%d code=%d", hits[0].kind, hits[0].id, rec.Code)
-						if a := rec.Header().Get("Allow"); a != "" {
-							o += " allow=" + strings.ReplaceAll(a, " ", "")
-						}
-					case rec.Code == http.StatusMethodNotAllowed:
-						al := strings.Split(rec.Header().Get("Allow"), ", ")
-						sort.Strings(al)
-						o = "405 allow=" + strings.Join(al, ",")
-					case rec.Code == http.StatusNotFound:
-						o = "404"
-						if a := rec.Header().Get("Allow"); a != "" {
-							o += " allow=" + strings.ReplaceAll(a, " ", "")
-						}
-					case rec.Code == http.StatusUnauthorized:
-						o = "401"
-					default:
-						o = fmt.Sprintf("code=%d", rec.Code)
+					if outer != nil {
+						req = pathvar.WithVars(req, outer) // an outer router bound these
 					}
+					o := one(srv.router, req)
 					seen[o] = true
 				}
+				beh = ""
 				var outs []string
 				for o := range seen {
 					outs = append(outs, o)
@@ -842,4 +1108,91 @@ func TestVerifC09Server(t *testing.T) {
 		}
 		return step, nil
 	})
+}
+
+// c09SrvServe runs ServeHTTP in a goroutine of its own (a handler may call runtime.Goexit) and reports how the
+// call ended: "" (returned), "panic" or "goexit".
+func c09SrvServe(h http.Handler, w http.ResponseWriter, r *http.Request) string {
+	res := make(chan string, 1)
+	go func() {
+		how := "goexit"
+		defer func() {
+			if recover() != nil {
+				how = "panic"
+			}
+			res <- how
+		}()
+		h.ServeHTTP(w, r)
+		how = ""
+	}()
+	return <-res
+}
+
+// c09SrvPanics: validateSecret panics inside the RouteOption when the secret is shorter than 8 bytes.
+func c09SrvPanics(f func()) (p bool) {
+	defer func() {
+		if v := recover(); v != nil {
+			if s, ok := v.(string); !ok || !strings.Contains(s, "secret") {
+				panic(v)
+			}
+			p = true
+		}
+	}()
+	f()
+	return false
+}
+
+func c09SrvHandleError(err error) (out string) {
+	defer func() {
+		if v := recover(); v != nil {
+			if e, ok := v.(error); ok && e == err {
+				out = "panic:same-error"
+			} else {
+				out = "panic:other"
+			}
+		}
+	}()
+	handleError(err)
+	return "returned"
+}
+
+func c09SrvVerdict(err error) string {
+	switch {
+	case err == nil:
+		return "ok"
+	case errors.Is(err, router.ErrInvalidMethod):
+		return "badmethod"
+	case errors.Is(err, router.ErrInvalidPath):
+		return "badpath"
+	case strings.HasPrefix(err.Error(), "duplicated item for "):
+		return "dup"
+	case strings.HasPrefix(err.Error(), "duplicated slash for "):
+		return "dupslash"
+	case err.Error() == "empty item":
+		return "empty"
+	}
+	return "err:" + strings.ReplaceAll(err.Error(), " ", "_")
+}
+
+// c09SrvStart calls the public Server.Start().  The configured port cannot be opened, so Start either panics with
+// the error of the registration (engine.start returns it before listening) or with the listener's error.
+func c09SrvStart(srv *Server) (out string) {
+	defer func() {
+		v := recover()
+		switch e := v.(type) {
+		case nil:
+			out = "returned"
+		case error:
+			var oe *net.OpError
+			if errors.As(e, &oe) || strings.Contains(e.Error(), "listen") {
+				out = "listen"
+			} else {
+				out = "panic:" + c09SrvVerdict(e)
+			}
+		default:
+			out = fmt.Sprintf("panic:value:%v", v)
+		}
+	}()
+	srv.Start()
+	return "returned"
 }
